@@ -37,7 +37,15 @@ def build(chk):
     chk.add(ob('O4.Box_IntersectsTask', 'h_box_intersects_task', 'hand-written task (PyImathBox.cpp): results[p] = box.intersects(points[p]) for start <= p < end only', bounds=B + '; Box3i and V3i points with arbitrary contents', timeout=400))
     chk.add(ob('O4.Box_ExtendByTask', 'h_box_extend_task', 'hand-written task (PyImathBox.cpp): ExtendByTask::execute(start,end,tid) extends the worker box boxes[tid] - whatever it already holds - by points[start..end) and leaves the other workers\' boxes alone (inductive step: any number of sub-ranges per worker id, any order)',
                bounds=B + '; three worker boxes with arbitrary contents, arbitrary worker id, V3i points with arbitrary contents', timeout=400, unwind=max(6 * N + 8, 20)))
-    chk.outside += ['the binding-level dispatchers (VectorizedVoid*MemberFunction::apply) that CHOOSE the task class and accessor kinds: a harness exists (wrappers/pyapply.cpp, harness/c20/apply.c) but Task::execute stays a virtual call in the clang -O1 IR (the vptr store is not forwarded past the opaque PyReleaseLock calls), and virtual dispatch is not modelled; seeded change S40 there is not caught']
+    # ---- the real binding-level dispatcher (chooses task class and accessor kinds itself); Task::execute is a virtual call in the IR, so this
+    # unit is translated with function addresses kept (vtables) and indirect calls emitted as C calls through the pointer
+    ea = EngB(chk, 'pyapply', py=True, validate=False)
+    ea.variant('ind', indirect=True)
+    for am, bm in ((0, 0), (0, 1), (1, 0), (1, 1)):
+        kn = '%s_%s' % ('masked' if am else 'direct', 'masked' if bm else 'direct')
+        chk.add(ea.ob('O6.inplace_operator_dispatch.' + kn, 'c20/apply.c', 'h_apply_iadd', 'VectorizedVoidMaskableMemberFunction1<op_iadd>::apply (the function bound to a += b), a %s / b %s: pairs a[i] with b[i], or with b at a\'s raw index when a is masked and b has a\'s unmasked length; other length combinations raise and modify nothing' % (('masked' if am else 'direct'), ('masked' if bm else 'direct')),
+                      variant='ind', defines=('N=%d' % N, 'AM=%d' % am, 'BM=%d' % bm), extra=('--object-bits', '12'), unwind=6 * N + 8, timeout=900, backends=('minisat', 'kissat', 'cadical'), core=(am == 0 and bm == 0),
+                      bounds=B + '; dispatchTask inlined (lengths <= 200 run the task on the calling thread); virtual calls resolved by CBMC over the translated vtables'))
     # ---- hand-written floating-point tasks (PyImathQuat.cpp), FP arithmetic uninterpreted on both sides
     e2 = EngB(chk, 'pytask2', py=True, validate=False)
     e2.variant('ufar', uf=['add', 'sub', 'mul', 'div', 'sqrt'])
